@@ -10,6 +10,7 @@ for d in $(ls -d seeded/s* | sort -t s -k3 -n); do
   id=$(basename $d)
   p=$(python3 -c "import json,sys; m=json.load(open('$d/meta.json')); print(m.get('check_that_detects') or m.get('property',''))" 2>/dev/null)
   [ -n "$p" ] || { echo "$id no meta" >> $OUT; continue; }
+  if grep -q '"neutralised"' $d/meta.json; then echo "$id $p neutralised by a later fix (skipped)" >> $OUT; continue; fi
   git -C $REPO checkout -q -- . ; { git -C $REPO apply $PWD/$d/patch.diff 2>/dev/null || git -C $REPO apply -C1 $PWD/$d/patch.diff; } || { echo "$id patch does not apply" >> $OUT; continue; }
   S=$(mktemp -d)
   VERIF_EVIDENCE_DIR=$S/e VERIF_REPLAYS_DIR=$S/r ./check $p quick > $S/out 2> $S/err; rc=$?
@@ -18,4 +19,4 @@ for d in $(ls -d seeded/s* | sort -t s -k3 -n); do
   rm -rf $S
   git -C $REPO checkout -q -- .
 done
-echo "missed: $(grep -vc 'exit=1' $OUT) of $(wc -l < $OUT)" >> $OUT
+echo "missed: $(grep -v 'exit=1' $OUT | grep -vc neutralised) of $(wc -l < $OUT)" >> $OUT
